@@ -234,3 +234,128 @@ def request_pairs(run):
             finally:
                 shutil.rmtree(top, ignore_errors=True)
     core.explore(lambda: None, lambda p, out: go(p))
+
+
+# ---------------------------------------------------------------------------
+# C09: histories with edits
+
+CHAIN = {
+    'm4.py': ['base = 1\n', 'base = 1\nextra4 = 2\n', 'other = "s"\n'],
+    'm3.py': ['import m4\nre3 = m4\nown3 = 3\n', 'import m4\nre3 = m4\nown3b = 33\n'],
+    'm2.py': ['from m3 import re3\nfrom m4 import *\nown2 = 2\n', 'from m3 import re3\nown2 = 2\nnew2 = 22\n'],
+    'm1.py': ['from m2 import *\nown1 = 1\n', 'from m2 import *\nown1 = 1\nlate1 = 11\n'],
+    'pk/__init__.py': ['from .inner import thing\nfrom . import inner\n', 'from .inner import thing, thing2\n'],
+    'pk/inner.py': ['thing = 1\nthing2 = 2\n', 'thing = "s"\nthing2 = 2\nthing3 = 3\n'],
+}
+CHAIN_REQUESTS = [
+    ('m1.', 'import m1\nm1.', (2, 3)), ('m2.', 'import m2\nm2.', (2, 3)), ('m3.re3.', 'import m3\nm3.re3.', (2, 7)),
+    ('m1.re3.', 'import m1\nm1.re3.', (2, 7)), ('pk.', 'import pk\npk.', (2, 3)), ('pk.inner.', 'import pk\npk.inner.', (2, 9)),
+    ('star-names', 'from m1 import *\nown', (2, 3)), ('lint', 'from m1 import *\nprint(base, own1, re3)\n', None),
+]
+
+EDIT_REPLAY = '''import sys, os, tempfile, shutil; sys.path.insert(0, %(repo)r)
+from supp.assistant import assist
+from supp.linter import lint
+from supp.project import Project
+d = tempfile.mkdtemp(prefix='supp-c09-')
+clock = [1000]
+def write(name, text):
+    fn = os.path.join(d, name); os.makedirs(os.path.dirname(fn), exist_ok=True)
+    open(fn, 'w').write(text); clock[0] += 10; os.utime(fn, (clock[0], clock[0]))
+def ask(p, req):
+    with p.check_changes():
+        if req[2] is None:
+            return [x[:4] for x in lint(p, req[1], os.path.join(d, 'edited.py'))]
+        return assist(p, req[1], req[2], os.path.join(d, 'edited.py'))[1]
+try:
+    for name, text in %(initial)r.items(): write(name, text)
+    p = Project([d])
+    last = None
+    for step in %(history)r:
+        if step[0] == 'request': last = ask(p, step[1])
+        elif step[0] == 'touch': clock[0] += 10; os.utime(os.path.join(d, step[1]), (clock[0], clock[0]))
+        else: write(step[1], step[2])
+    fresh = ask(Project([d]), %(history)r[-1][1])
+    print('long-lived:', last); print('fresh     :', fresh)
+    print('REPRODUCED: the long-lived project answers differently from a fresh one' if last != fresh else 'not reproduced')
+finally:
+    shutil.rmtree(d, ignore_errors=True)
+'''
+
+
+@harness(['C09'], 'supp.project.Project / supp.module.SourceModule [request - edit - request histories against a fresh project]',
+         bounded='a project of 6 modules in 1 package with import, from-import, star-import and re-export edges (chain of length 4): every history '
+                 'request; edit; request  over 8 requests and 13 edits (rewrite of each module to each of its variants with a new mtime, touch), '
+                 'and 300 histories  request; edit; request; edit; request  drawn with a fixed seed')
+def edit_histories(run):
+    """BOUNDED stand-in for the claim of C09 itself: after any history of edits (each with a new modification time) interleaved with requests,
+    a request inside check_changes() on the long-lived project returns what a fresh project returns on the same disk state - also when the
+    edited module is reached only through the imports or star imports of unchanged modules.  Not counted as proved."""
+    import logging
+    import random
+    import supp.assistant as A
+    import supp.linter as L
+    import supp.project as Pj
+
+    def go(path):
+        logging.disable(logging.CRITICAL)
+        edits = []
+        for name, variants in CHAIN.items():
+            for v in variants[1:]:
+                edits.append(('rewrite', name, v))
+        edits.append(('touch', 'm4.py'))
+        edits.append(('touch', 'm2.py'))
+        edits.append(('rewrite', 'm5.py', 'five = 5\n'))
+        initial = {name: variants[0] for name, variants in CHAIN.items()}
+        hists = [[('request', q1), e, ('request', q2)] for q1 in CHAIN_REQUESTS for e in edits for q2 in CHAIN_REQUESTS]
+        rnd = random.Random(20260927)
+        for _ in range(300):
+            hists.append([('request', rnd.choice(CHAIN_REQUESTS)), rnd.choice(edits), ('request', rnd.choice(CHAIN_REQUESTS)), rnd.choice(edits),
+                          ('request', rnd.choice(CHAIN_REQUESTS))])
+        bad = []
+        for hist in hists:
+            top = tempfile.mkdtemp(prefix='supp-c09-')
+            clock = [1000]
+            try:
+                def write(name, text):
+                    fn = os.path.join(top, name)
+                    os.makedirs(os.path.dirname(fn), exist_ok=True)
+                    with open(fn, 'w') as f:
+                        f.write(text)
+                    clock[0] += 10
+                    os.utime(fn, (clock[0], clock[0]))
+
+                def ask(project, req):
+                    with project.check_changes():
+                        try:
+                            if req[2] is None:
+                                return [d[:4] for d in L.lint(project, req[1], os.path.join(top, 'edited.py'))]
+                            return A.assist(project, req[1], req[2], os.path.join(top, 'edited.py'))[1]
+                        except Exception as e:
+                            return '<raised %s>' % type(e).__name__
+                for name, text in initial.items():
+                    write(name, text)
+                p = Pj.Project([top])
+                last = None
+                for step in hist:
+                    if step[0] == 'request':
+                        last = ask(p, step[1])
+                    elif step[0] == 'touch':
+                        clock[0] += 10
+                        os.utime(os.path.join(top, step[1]), (clock[0], clock[0]))
+                    else:
+                        write(step[1], step[2])
+                fresh = ask(Pj.Project([top]), hist[-1][1])
+                if last != fresh:
+                    bad.append((hist, last, fresh))
+            finally:
+                shutil.rmtree(top, ignore_errors=True)
+        for hist, last, fresh in bad[:3]:
+            short = ' ; '.join(s[1][0] if s[0] == 'request' else '%s %s' % (s[0], s[1]) for s in hist)
+            core.RUN.concretise = lambda model, ob, hist=hist: {'input': [s[1][0] if s[0] == 'request' else list(s[:2]) for s in hist], 'script': EDIT_REPLAY % {
+                'repo': core.REPO, 'initial': initial, 'history': hist}}
+            prove('history:%s' % short, False, clause='after [%s] the long-lived project answers %r, a fresh one %r' % (short, last, fresh), path=path)
+            core.RUN.concretise = None
+        prove('every-history-ends-like-a-fresh-project', not bad,
+              clause='%d histories, %d whose last answer differs from a fresh project on the same disk state' % (len(hists), len(bad)), path=path)
+    core.explore(lambda: None, lambda p, out: go(p))
